@@ -215,8 +215,7 @@ func TestC19(t *testing.T) {
 	var rp vlCase
 	if loadReplay(t, &rp) {
 		if msg := runVersionLock(rp, map[string]bool{}); msg != "" {
-			st.Violate(msg, rp)
-			t.Fatal(msg)
+			fail(st, t, msg, rp)
 		}
 		return
 	}
@@ -254,8 +253,7 @@ func TestC19(t *testing.T) {
 				st.Exclude("C19/fork-below-start")
 			}
 			if msg := run(c); msg != "" {
-				st.Violate(msg, c)
-				rt.Fatalf("%s", msg)
+				fail(st, rt, msg, c)
 			}
 		})
 	})
@@ -277,8 +275,7 @@ func TestC19(t *testing.T) {
 							cc.Forks = []Fork{{Height: uint32(int(c.Start) + fo), MinVer: mv}}
 							count++
 							if msg := run(cc); msg != "" {
-								st.Violate(msg, cc)
-								t.Fatalf("%s", msg)
+								fail(st, t, msg, cc)
 							}
 						}
 					}
